@@ -263,6 +263,38 @@ def _types_call_bound(a, env, ats):
     audits(a.func, "types", TypeInParent())
 
 
+def _types_function_env(a, env):
+    """
+    Return the environment in which the body of a function definition is typed.
+    A name that the body binds anywhere (an assignment, a loop target) is a local
+    variable for *all* of the body: a module-level variable of that name is not
+    visible inside the function, and reading the name before the function has
+    assigned it raises.
+    """
+    env_ = dict(env)
+    nodes = list(a.body)
+    while nodes:
+        a_ = nodes.pop()
+        if isinstance(
+            a_,
+            (
+                ast.FunctionDef,
+                ast.AsyncFunctionDef,
+                ast.ClassDef,
+                ast.Lambda,
+                ast.ListComp,
+                ast.SetComp,
+                ast.DictComp,
+                ast.GeneratorExp,
+            ),
+        ):
+            continue  # Another scope.
+        if isinstance(a_, ast.Name) and isinstance(a_.ctx, ast.Store):
+            env_.pop(a_.id, None)
+        nodes.extend(ast.iter_child_nodes(a_))
+    return env_
+
+
 def types(a, env=None, func=False):
     """
     Infer types of :obj:`ast` where possible, adding the type (or error)
@@ -320,7 +352,7 @@ def types(a, env=None, func=False):
                 # Create a local copy of the environment. Only the
                 # original environment passed to this invocation
                 # is returned.
-                env_ = dict(env)
+                env_ = _types_function_env(a, env)
                 for a_ in a.body:
                     env_ = types(a_, env_, func=True)
             else:
@@ -354,7 +386,7 @@ def types(a, env=None, func=False):
                 if t_ret is not None and _types_monomorphic(t_ret):
                     rules_no_restriction(a.returns)
 
-                env_ = dict(env)
+                env_ = _types_function_env(a, env)
                 if t_ret is not None and _types_monomorphic(t_ret):
                     # The declared return type, for the return statements of the
                     # body ("return" cannot be the name of a variable).
